@@ -159,9 +159,13 @@ type vJoin struct {
 	mkSrc   func(i int) metav1.Object                      // i-th symbolic source object
 	want    func(objs []metav1.Object) filter.Filter       // the selection rule applied to a source content
 	run     func(src, dst *vCtl) (interface{ Close(); Done() <-chan struct{} }, error)
+	ref     func(objs []metav1.Object, p *corev1.Pod) bool // independent selection rule (optional)
 }
 
 func symSel(tag string) map[string]string {
+	if zzverif.Param("CL", 0) == 1 {
+		return map[string]string{"app": []string{"x", "y"}[zzverif.NondetInt(tag+".capp", 0, 1)]}
+	}
 	return map[string]string{"app": zzverif.NondetString(tag + ".app")}
 }
 
@@ -224,6 +228,9 @@ func vRunJoin(j vJoin, P string) {
 		if n >= 1 {
 			zzverif.Assert(filter.FiltersEqual(f, j.want(content)), P+"/refilter-tracks-source/on-change")
 			zzverif.Assert(zzverif.Iff(f.Accept(pd), j.want(content).Accept(pd)), P+"/refilter-tracks-source/on-change")
+			if j.ref != nil {
+				zzverif.Assert(zzverif.Iff(f.Accept(pd), j.ref(content, pd)), P+"/selects-matched")
+			}
 		}
 		zzverif.Reach(P + "/changed")
 	}
@@ -263,7 +270,9 @@ type closer interface {
 }
 
 func om(i int) metav1.ObjectMeta {
-	return metav1.ObjectMeta{Namespace: zzverif.NondetString("src.ns"), Name: zzverif.NondetString("src.name")}
+	m := metav1.ObjectMeta{Namespace: zzverif.NondetString("src.ns"), Name: zzverif.NondetString("src.name")}
+	zzverif.Assume(m.Namespace != "") // namespaced API objects always carry a namespace
+	return m
 }
 
 func VerifC09_ServicePods() {
@@ -280,6 +289,23 @@ func VerifC09_ServicePods() {
 		},
 		run: func(src, dst *vCtl) (interface{ Close(); Done() <-chan struct{} }, error) {
 			return ServicePods(context.Background(), service.VNewController(src), pod.VNewController(dst))
+		},
+		// the join selects the pods of a service's namespace that carry its (non-empty) selector
+		ref: func(objs []metav1.Object, p *corev1.Pod) bool {
+			r := false
+			for _, o := range objs {
+				svc := o.(*corev1.Service)
+				if len(svc.Spec.Selector) == 0 {
+					continue
+				}
+				m := true
+				for k, v := range svc.Spec.Selector {
+					pv, has := p.Labels[k]
+					m = zzverif.And(m, has, pv == v)
+				}
+				r = zzverif.Or(r, zzverif.And(svc.Namespace == p.Namespace, m))
+			}
+			return r
 		},
 	}, "C09/service-pods")
 }
